@@ -179,9 +179,10 @@ namespace rkcommon {
         reset();
         return *this;
       }
-      default_construct_storage_if_needed();
-      value()  = other.value();
-      hasValue = true;
+      if (has_value())
+        value() = other.value();
+      else
+        emplace(other.value());
       return *this;
     }
 
@@ -192,9 +193,10 @@ namespace rkcommon {
         reset();
         return *this;
       }
-      default_construct_storage_if_needed();
-      value()  = std::move(other.value());
-      hasValue = true;
+      if (has_value())
+        value() = std::move(other.value());
+      else
+        emplace(std::move(other.value()));
       return *this;
     }
 
@@ -206,9 +208,10 @@ namespace rkcommon {
                     "rkcommon::utility::Optional<T> requires the type"
                     " being assigned from be convertible to the type parameter"
                     " of the destination Optional<>.");
-      default_construct_storage_if_needed();
-      this->value() = rhs;
-      hasValue      = true;
+      if (has_value())
+        this->value() = rhs;
+      else
+        emplace(rhs);
       return *this;
     }
 
@@ -225,9 +228,10 @@ namespace rkcommon {
         reset();
         return *this;
       }
-      default_construct_storage_if_needed();
-      value()  = other.value();
-      hasValue = true;
+      if (has_value())
+        value() = other.value();
+      else
+        emplace(other.value());
       return *this;
     }
 
@@ -244,9 +248,10 @@ namespace rkcommon {
         reset();
         return *this;
       }
-      default_construct_storage_if_needed();
-      value()  = other.value();
-      hasValue = true;
+      if (has_value())
+        value() = other.value();
+      else
+        emplace(other.value());
       return *this;
     }
 
